@@ -5,7 +5,7 @@
 # Output: one line per row; exit 1 if any row deviates.
 cd /verif
 REPO=/repo; VERIF=/verif
-if [ "${SCRATCH:-0}" != "0" ]; then [ "$SCRATCH" = "1" ] && { mutants/scratch.sh sync || exit 2; }; REPO=/tmp/rv-scratch/repo; VERIF=/tmp/rv-scratch/verif; fi
+if [ "${SCRATCH:-0}" != "0" ]; then [ "$SCRATCH" = "1" ] && { mutants/scratch.sh sync || exit 2; }; S=${SCRATCH_DIR:-/tmp/rv-scratch}; REPO=$S/repo; VERIF=$S/verif; fi
 [ -n "$(git -C $REPO status --porcelain)" ] && { echo "$REPO not clean"; exit 2; }
 ALL="C01 C02 C03 C04 C05 C06 C07 C08 C09 C10 C11 C12 C13 C14 C15 C16 C17 C18 C19"
 first=${1:-1}; last=${2:-100000}; n=0; bad=0
